@@ -151,11 +151,13 @@ def _stmts(body, env, top=True):
         elif isinstance(st, (ast.With, ast.AsyncWith)):
             out += ['B', '1'] + _stmts(st.body, env, top) + ['E']
         elif isinstance(st, (ast.Try, getattr(ast, 'TryStar', ast.Try))):
-            # the generated bodies never raise: handlers do not run, else and finally do
+            # the generated bodies never raise: handlers do not run, else and finally do — except the one shape
+            # `try: raise KeyError(1)` / `except KeyError:`, whose (first) handler runs and whose else clause does not
+            raises = bool(st.body) and isinstance(st.body[0], ast.Raise)
             out += ['B', '1'] + _stmts(st.body, env, top) + ['E']
-            for h in st.handlers:
-                out += ['B', '0'] + _stmts(h.body, env, top) + ['E']
-            out += ['B', '1'] + _stmts(st.orelse, env, top) + ['E']
+            for hi, h in enumerate(st.handlers):
+                out += ['B', '1' if (raises and hi == 0) else '0'] + _stmts(h.body, env, top) + ['E']
+            out += ['B', '0' if raises else '1'] + _stmts(st.orelse, env, top) + ['E']
             out += ['B', '1'] + _stmts(st.finalbody, env, top) + ['E']
         elif hasattr(ast, 'Match') and isinstance(st, ast.Match):
             for i, c in enumerate(st.cases):
